@@ -12,12 +12,22 @@ import vlib, progen, langlib, lang_findings
 FUEL_VM = 60000
 
 
-def same_as_ref(r, real):
-    """r: parsed reference outcome; real: dict(cls, rc, out) of an engine run."""
+def same_as_ref(r, real, eng=None, oob_prefix=False):
+    """r: parsed reference outcome; real: dict(cls, rc, out) of an engine run.
+    An out-of-range (at a i) is a run-time fault of the language (docs/ARRAY_SAFETY.md): the run stops there with a non-zero
+    status and everything printed before it.  The VM reports `runtime error` and exits 1; the native runtime fails an assertion
+    and aborts (SIGABRT).  oob_prefix: while lang:native-oob-output-lost is open the native stdout need only be a prefix of the
+    reference output (nothing printed after the access, nothing invented)."""
     if r['cls'] == 'exit':
         return real['cls'] == 'exit' and real['rc'] == r['rc'] and real['out'] == r['out']
     if r['cls'] == 'fault-assert':
         return real['cls'] == 'exit' and real['rc'] == 1 and real['out'] == r['out']
+    if r['cls'] == 'fault-oob':
+        if eng == 'native':
+            if real['cls'] != 'signal6':
+                return False
+            return real['out'] == r['out'] or (oob_prefix and r['out'].startswith(real['out']))
+        return real['cls'] == 'exit' and real['rc'] == 1 and real['out'] == r['out'] and 'out of bounds' in real.get('err', 'out of bounds')
     return None        # reference says partial operation / out of fuel: no verdict
 
 
@@ -31,6 +41,8 @@ def same_model(m, real):
         return real['cls'] in ('outoffuel', 'timeout')
     if m['cls'] == 'signal-fpe':
         return real['cls'] == 'signal8'
+    if m['cls'] == 'abort-oob':
+        return real['cls'] == 'signal6'          # like SIGFPE: what of the buffered stdout survives abort() is libc's business
     if m['cls'] == 'ccfail':
         return real['cls'] == 'cc-failed'
     if m['cls'] == 'felloff-x':
@@ -57,6 +69,9 @@ def stream_cfg(ck):
     cfg.shortcircuit_effect = not ({'lang:shortcircuit-and', 'lang:shortcircuit-or'} & open_keys)
     cfg.continue_in_for = 'lang:continue-in-for' not in open_keys
     cfg.block_shadow = 'lang:block-shadow' not in open_keys
+    cfg.arrays = True
+    cfg.at_on_call = 'lang:at-of-call-untyped' not in open_keys
+    cfg.for_bound_mutated = 'lang:for-bound-reevaluated' not in open_keys
     return cfg
 
 
@@ -90,7 +105,8 @@ def run_engines(ck, b, progs, want_native=True, styles=('prefix',)):
 # generator features whose divergence is an OPEN finding of ONE engine: programs using them are still generated and still
 # judged on the other engine (and on all three ties); only the affected engine's property-level comparison is exempt
 ENGINE_FINDINGS = {'lang:self-ref-shadow': ('native', ('self_ref_shadow',), 'self_ref_shadow'),
-                   'lang:arg-order': ('native', ('multi_effect_args', 'multi_effect_operands'), 'multi_effect_args')}
+                   'lang:arg-order': ('native', ('multi_effect_args', 'multi_effect_operands'), 'multi_effect_args'),
+                   'lang:for-bound-reevaluated': ('native', ('for_bound_mutated',), 'for_bound_mutated')}
 
 
 def exempt_engines(ck, feat):
@@ -115,7 +131,7 @@ def check_programs(ck, b, nv, progs, feats, stream, want_native=True, ties=True)
         R = real[pid]
         key = pid if stream == 'witness' else 'c02:gen:%s' % pid
         rep = dict(program_sexp=s, source=R['src'], reference=dict(cls=r['cls'], rc=r['rc'], out=r['out'].decode('latin1')))
-        nontrivial = r['cls'] in ('exit', 'fault-assert') and len(r['out']) > 0
+        nontrivial = r['cls'] in ('exit', 'fault-assert', 'fault-oob') and len(r['out']) > 0
         ck.count(s, nontrivial)
         ck.extra['ref_classes'][r['cls']] += 1
         if r['cls'] in ('stuck', 'error'):
@@ -128,6 +144,10 @@ def check_programs(ck, b, nv, progs, feats, stream, want_native=True, ties=True)
         # optimisation-dependent) and what the binary prints otherwise is not modelled: NatSem says 'ccfail' for all of them.
         nat_unmodelled = (stream == 'gen' and mn is not None and mn['cls'] == 'ccfail'
                           and 'lang:self-ref-shadow' in {k['key'] for k in ck.known})
+        # a for loop whose body assigns a variable the range bound reads: the generated C re-evaluates the bound before every
+        # iteration (open finding lang:for-bound-reevaluated); NatSem models the single evaluation the language prescribes
+        nat_unmodelled = nat_unmodelled or (stream == 'gen' and 'for_bound_mutated' in feats.get(pid, {})
+                                            and 'lang:for-bound-reevaluated' in {k['key'] for k in ck.known})
         # ---- property level: each real engine against the reference
         for eng, obs in (('vm', R['vm_big']), ('native', R['nat'])):
             if obs is None:
@@ -139,7 +159,7 @@ def check_programs(ck, b, nv, progs, feats, stream, want_native=True, ties=True)
                 # the front end refused a program the reference type system accepts: no engine ran, no verdict here
                 ck.extra['rejected_by_front_end'] = ck.extra.get('rejected_by_front_end', 0) + 1
                 continue
-            v = same_as_ref(r, obs)
+            v = same_as_ref(r, obs, eng, oob_prefix=(stream == 'gen' and 'lang:native-oob-output-lost' in {k['key'] for k in ck.known}))
             ck.extra['engine_runs'][eng] += 1
             if v is False:
                 k2 = key if stream == 'witness' else key + ':' + eng
@@ -340,6 +360,7 @@ def run(ck):
     check_programs(ck, b, nv, operator_table(ck, b, nv), {}, 'witness')
     # 3. generated stream
     cfg = stream_cfg(ck)
+    cfg.oob = True       # out-of-range accesses now and then: the reference says where the run stops (C01 excludes partial operations, C02 does not)
     # every third program also uses the constructs on which only the native engine has an open finding (see ENGINE_FINDINGS)
     cfg_vm = progen.Cfg(**{k: v for k, v in cfg.__dict__.items()})
     for key, (eng, fs, flag) in ENGINE_FINDINGS.items():
@@ -399,6 +420,6 @@ def replay(ck, d):
     print('vm     :', vm['cls'], vm['rc'], vm['out'], vm['err'][-300:])
     print('native :', nat['cls'], nat['rc'], nat['out'], nat['err'][-300:])
     r = langlib.parse_model(vlib.run_lines(nv, ['ref %d %s' % (langlib.REF_FUEL, s)])[0])
-    ok = same_as_ref(r, vm) is not False and same_as_ref(r, nat) is not False
+    ok = same_as_ref(r, vm, 'vm') is not False and same_as_ref(r, nat, 'native') is not False
     print('REPRODUCED' if not ok else 'not reproduced')
     return 0 if ok else 1
